@@ -451,7 +451,7 @@ func autoGenerated(gn string) bool {
 		return false
 	}
 	k := gn[i+1:]
-	return (strings.HasPrefix(k, "frame#loop")) || (strings.HasPrefix(k, "inv#loop") && strings.Contains(k, ".autorange."))
+	return strings.HasPrefix(k, "frame#") || k == "lossless" || strings.HasPrefix(k, "alloc#") || (strings.HasPrefix(k, "inv#loop") && strings.Contains(k, ".autorange."))
 }
 
 func headTail(s string, n int) string {
